@@ -451,6 +451,15 @@ def _mirror_when_specialised(f):
 
 
 def run(ctx, rep, tier="quick"):
+    # the ranking of a synchronous rung is a sort on the metric with the direction taken from the mode; it is the mirror image under
+    # (mode, metric) -> (other mode, -metric) only if no NaN takes part in it (an ascending sort and a reversed sort place an
+    # incomparable key differently) - the NaN-filter rules of C05-S4 / S5 are taken over, relabelled
+    from . import c05 as _c05
+    sub = type(rep)(rep.prop)
+    _c05.s4_s5(ctx, sub)
+    for i in sub.items:
+        i.clause = "S2"
+        rep.items.append(i)
     n_sign = 0
     per_func = {}
     _SPEC.clear()
